@@ -436,6 +436,28 @@ func BusyTargetScenario(seed int64) (fails []string, line string) {
 	return fails, line
 }
 
+// AnyScripts: the BindAny steps of the scenarios run so far, as lines for the Lean model
+// (Pipes.bindAnyStep) with the target's active set the implementation ended with.
+var AnyScripts struct {
+	Lines, Obs []string
+}
+
+func idxList(names am.S, l am.S) string {
+	var o []string
+	for i, n := range names {
+		for _, x := range l {
+			if x == n {
+				o = append(o, fmt.Sprint(i))
+				break
+			}
+		}
+	}
+	if len(o) == 0 {
+		return "-"
+	}
+	return strings.Join(o, ",")
+}
+
 // BindAnyScenario: "with BindAny the target's active set equals the source's" - every step is left
 // to settle (BindAny calls the target from the source's AnyState handler, inline).
 func BindAnyScenario(seed int64) (fails []string, line string) {
@@ -476,6 +498,8 @@ func BindAnyScenario(seed int64) (fails []string, line string) {
 		if len(st) == 0 {
 			st = am.S{names[r.Intn(len(names))]}
 		}
+		tgtBefore := target.ActiveStates(nil)
+		srcBefore := fmt.Sprint(source.Time(nil))
 		switch r.Intn(3) {
 		case 0, 1:
 			source.Add(st, nil)
@@ -484,7 +508,16 @@ func BindAnyScenario(seed int64) (fails []string, line string) {
 			source.Remove(st, nil)
 			hist = append(hist, "-"+strings.Join(st, ","))
 		}
-		if !waitUntil(500*time.Millisecond, func() bool { return target.QueueLen() == 0 && same() }) {
+		settled := waitUntil(500*time.Millisecond, func() bool { return target.QueueLen() == 0 && same() })
+		if srcBefore != fmt.Sprint(source.Time(nil)) {
+			// one accepted source transition = one run of BindAny's handler: replayed in the model
+			time.Sleep(2 * time.Millisecond)
+			multiMu.Lock()
+			AnyScripts.Lines = append(AnyScripts.Lines, fmt.Sprintf("pipes any 1 0,1,2,3 %s %s", idxList(names, tgtBefore), idxList(names, source.ActiveStates(nil))))
+			AnyScripts.Obs = append(AnyScripts.Obs, "target="+idxList(names, target.ActiveStates(nil)))
+			multiMu.Unlock()
+		}
+		if !settled {
 			fails = append(fails, fmt.Sprintf("BindAny: the target's active set differs from the source's although every step was left to settle: after %s the source holds %v and the target %v",
 				strings.Join(hist, " "), source.ActiveStates(nil), target.ActiveStates(nil)))
 			return fails, line
